@@ -401,8 +401,10 @@ class Writer:
             starts = ([b.id] if k == 0 else []) + [it.id]
             children = it.children
             if k > 0:
-                # gap between items
-                if not b.tight:
+                # gap between items; an item may fix it itself (attribute `gap`: number of blank
+                # lines before the item; the caller then answers for the list's `tight` flag)
+                g = getattr(it, 'gap', None)
+                for _ in range((0 if b.tight else 1) if g is None else int(g)):
                     out.append(L('', blank=True))
             if not children:
                 out.append(L(' ' * li + marker, starts=starts))
@@ -451,14 +453,22 @@ class Writer:
                 c.bullet = ctx.bullet
             else:
                 can_omit = may_omit_blank(prev, b)
-                if tight:
+                # a block may fix the gap before it itself (attribute `gap`: number of blank
+                # lines; the caller then answers for the `tight` flag of the enclosing list)
+                g = getattr(b, 'gap', None)
+                if g is not None:
+                    assert g or can_omit, ('gap cannot be omitted', prev, b)
+                    blank = bool(g)
+                elif tight:
                     assert can_omit, ('tight gap impossible', prev, b)
                     blank = False
                 elif all_blank or not can_omit:
                     blank = True
                 else:
                     blank = not self.chance(self.p_noblank)
-                if blank:
+                if blank and g is not None:
+                    out.extend(L('', blank=True) for _ in range(int(g)))
+                elif blank:
                     out.append(L('', blank=True))
                     if self.chance(0.1):
                         out.append(L('', blank=True))
